@@ -345,7 +345,7 @@ PROPS = {
         trusted=["schema translator and tree printer (tree.go)", "float and key oracle tables produced by the harness"],
         partial="c13_refines_scalar / c13_history / c13_atomic_leaves are conditional on the two per-operation lemmas (c13_delete_premise, c13_set_premise: leaves after DeleteNode / SetNode on guarded "
                 "targets); guards: no key-leaf targets, scalar payloads of the leaf's type, paths with complete canonical sorted keys, no ordered list on the path; JSON payloads are covered by the "
-                "structural theorems only. Refuted on the model (and the implementation): c13_refuted_noncanonical_key_replaces_entry, c13_refuted_ordered_list_merge (C31 limitation), "
+                "structural theorems only. c13_noncanonical_key_keeps_entry: since fix 8c0e3a71 a non-canonically spelled key acts on the existing entry. Refuted on the model (and the implementation): c13_refuted_ordered_list_merge (C31 limitation), "
                 "c13_refuted_empty_leaflist, c13_refuted_best_effort_panic (NaN decimal64 key).",
     ),
     "C14": dict(
